@@ -27,6 +27,8 @@ class Interp:
         self.fields = fields or {}      # field name -> int (value of any X->field / X.field)
         self.max_steps = max_steps
         self.record_calls = False       # evaluate stubbed calls that appear as statements too
+        self.mem = None                 # dict: access-path text -> int; when set, stores to memory are recorded and reads look here first
+        self.opaque_decls = False       # a local whose initialiser cannot be folded (a pointer) becomes an opaque token
 
     def call(self, f, args, depth=0):
         if depth > 12:
@@ -48,12 +50,20 @@ class Interp:
                 if n["k"] == "decl":
                     for v in n["vars"]:
                         if v.get("init") is not None:
-                            env[v["name"]] = self.ev(f, v["init"], env, depth)
+                            try:
+                                env[v["name"]] = self.ev(f, v["init"], env, depth)
+                            except Unsupported:
+                                if not self.opaque_decls:
+                                    raise
+                                env[v["name"]] = 1
                 elif n["k"] == "bin" and n["op"] == "=":
                     ln = f.sn(n["l"])
                     if ln["k"] != "ref":
-                        raise Unsupported("store to memory in %s" % f.name)
-                    env[ln["name"]] = self.ev(f, n["r"], env, depth)
+                        if self.mem is None:
+                            raise Unsupported("store to memory in %s" % f.name)
+                        self.mem[f.show(n["l"])] = self.ev(f, n["r"], env, depth)
+                    else:
+                        env[ln["name"]] = self.ev(f, n["r"], env, depth)
                 elif n["k"] == "bin" and n["op"] in ("|=", "&=", "+=", "-=", "^="):
                     ln = f.sn(n["l"])
                     if ln["k"] != "ref" or ln["name"] not in env:
@@ -83,6 +93,13 @@ class Interp:
                     raise Unsupported("pruned edge taken")
                 b = nxt[0]
                 continue
+            if blk.term and blk.term["k"] == "SwitchStmt" and blk.term.get("cond") is not None:
+                v = self.ev(f, blk.term["cond"], env, depth)
+                nxt = [s_ for s_, lab in es if lab[0] == "case" and lab[1] == v] or [s_ for s_, lab in es if lab[0] == "default"]
+                if not nxt:
+                    raise Unsupported("switch without matching case")
+                b = nxt[0]
+                continue
             raise Unsupported("switch")
 
     def ev(self, f, nid, env, depth):
@@ -108,6 +125,8 @@ class Interp:
                 return env[n["name"]]
             raise Unsupported("free variable %s" % n["name"])
         if k == "member":
+            if self.mem is not None and f.show(nid) in self.mem:
+                return self.mem[f.show(nid)]
             if n["field"] in self.fields:
                 return self.fields[n["field"]]
             raise Unsupported("memory read %s" % f.show(nid))
